@@ -128,7 +128,7 @@ def plan(tier, seed):
     rnd = random.Random(seed * 7919 + 12)
     fam = c12_family(tier == "quick")
     sysg = [g for g in corpus.systematic(tier) if usable(g)]
-    want = 24 if tier == "quick" else 150
+    want = 24 if tier == "quick" else 90
     rnd.shuffle(sysg)
     # keep every template represented
     seen, first, rest = set(), [], []
@@ -137,8 +137,8 @@ def plan(tier, seed):
         (first if key not in seen else rest).append(g)
         seen.add(key)
     sysg = (first + rest)[:want]
-    rg = [g for g in corpus.random_grammars(seed, 8 if tier == "quick" else 50, 0) if usable(g)]
-    rg += [g for g in corpus.random_grammars(seed + 7919, 4 if tier == "quick" else 20, 0, classical_only=True) if usable(g)]
+    rg = [g for g in corpus.random_grammars(seed, 8 if tier == "quick" else 30, 0) if usable(g)]
+    rg += [g for g in corpus.random_grammars(seed + 7919, 4 if tier == "quick" else 12, 0, classical_only=True) if usable(g)]
     grams = fam + sysg + rg
     for i, g in enumerate(grams):
         g.gid = i
